@@ -122,6 +122,9 @@ func ruleSwitch(rule string) RuleFn {
 				}
 				name := an.ShortName(fn)
 				exc := switchExceptions[name]
+				if i := strings.Index(name, "$"); i > 0 && exc == nil {
+					exc = switchExceptions[name[:i]] // closures share their parent's reasons
+				}
 				var missing []string
 				for _, t := range names {
 					if handled[t] {
@@ -225,6 +228,65 @@ func ruleSwitch(rule string) RuleFn {
 	}
 }
 
+// isFillableArgCount: v is NumIn() of the function type named tn, reduced by
+// exactly one under IsVariadic() - as a phi in fn, or as the result of a
+// module helper that computes it from the same type.
+func isFillableArgCount(c *an.Ctx, fn *ssa.Function, v ssa.Value, tn string) bool {
+	v = an.Resolve(v)
+	if ph, ok := v.(*ssa.Phi); ok && len(ph.Edges) == 2 {
+		var plain, dec bool
+		for i, e := range ph.Edges {
+			s := an.Norm(e)
+			if s == tn+".NumIn()" {
+				plain = true
+			}
+			if s == "("+tn+".NumIn() - 1)" {
+				pred := ph.Block().Preds[i]
+				edges := an.EdgesWhere(fn, an.FactIs(tn+".IsVariadic()"))
+				if len(edges) > 0 && len(pred.Instrs) > 0 {
+					if hit, _ := an.PathTo(fn, nil, an.IsInstr(pred.Instrs[0]), an.NewGates().AddEdges(edges...)); hit == nil {
+						dec = true
+					}
+				}
+			}
+		}
+		return plain && dec
+	}
+	if k, ok := v.(*ssa.Call); ok {
+		h := an.StaticCallee(k)
+		if h == nil || !c.P.InModule(h) || len(k.Common().Args) != 1 || an.Norm(k.Common().Args[0]) != tn || len(h.Params) != 1 {
+			return false
+		}
+		pn := "p:" + an.CanonParam(h.Params[0])
+		okAll, n := true, 0
+		an.Instrs(h, func(in ssa.Instruction) {
+			if r, isR := in.(*ssa.Return); isR {
+				n++
+				if !isFillableArgCount(c, h, r.Results[0], pn) {
+					// two returns: NumIn()-1 under IsVariadic and NumIn() otherwise
+					s := an.Norm(an.Resolve(r.Results[0]))
+					tE := an.EdgesWhere(h, an.FactIs(pn+".IsVariadic()"))
+					fE := an.EdgesWhere(h, an.FactIs("!"+pn+".IsVariadic()"))
+					switch s {
+					case "(" + pn + ".NumIn() - 1)":
+						if hit, _ := an.PathTo(h, nil, an.IsInstr(r), an.NewGates().AddEdges(tE...)); hit != nil || len(tE) == 0 {
+							okAll = false
+						}
+					case pn + ".NumIn()":
+						if hit, _ := an.PathTo(h, nil, an.IsInstr(r), an.NewGates().AddEdges(fE...)); hit != nil || len(fE) == 0 {
+							okAll = false
+						}
+					default:
+						okAll = false
+					}
+				}
+			}
+		})
+		return okAll && n > 0
+	}
+	return false
+}
+
 // ruleVariadic and option≡tag (C15).
 func ruleEncodings(rule string) RuleFn {
 	return func(c *an.Ctx) {
@@ -239,26 +301,7 @@ func ruleEncodings(rule string) RuleFn {
 					}
 				}
 			}
-			if ph, ok := bound.(*ssa.Phi); ok && len(ph.Edges) == 2 {
-				var plain, dec bool
-				for i, e := range ph.Edges {
-					s := an.Norm(e)
-					if s == "p:ctype.NumIn()" {
-						plain = true
-					}
-					if s == "(p:ctype.NumIn() - 1)" {
-						// the predecessor must be under IsVariadic() true
-						pred := ph.Block().Preds[i]
-						edges := an.EdgesWhere(fn, an.FactIs("p:ctype.IsVariadic()"))
-						if len(edges) > 0 && len(pred.Instrs) > 0 {
-							if hit, _ := an.PathTo(fn, nil, an.IsInstr(pred.Instrs[0]), an.NewGates().AddEdges(edges...)); hit == nil {
-								dec = true
-							}
-						}
-					}
-				}
-				good = plain && dec
-			}
+			good = isFillableArgCount(c, fn, bound, "p:ctype")
 			c.Check(good, rule, "newParamList drops exactly the variadic parameter", "bound = NumIn() or NumIn()-1 under IsVariadic()", "the parameter loop bound is not NumIn() reduced by one exactly for variadic functions: a declared dependency is dropped or the variadic slice becomes a dependency", nil, nil)
 			// In(i) with the loop index
 			okIn := false
@@ -403,11 +446,8 @@ func ruleInfo(rule string) RuleFn {
 		}
 		c.Floor(rule, "Input/Output literals", n, 5)
 		// slice sizes and sources
-		for _, nm := range []string{"(*dig.Scope).provide", "(*dig.Scope).Decorate", "(*dig.Scope).Invoke"} {
-			fn := c.Fn(rule, nm)
-			if fn == nil {
-				continue
-			}
+		for _, fn := range c.P.Funcs {
+			nm := an.ShortName(fn)
 			an.Instrs(fn, func(in ssa.Instruction) {
 				st, ok := in.(*ssa.Store)
 				if !ok {
@@ -416,6 +456,9 @@ func ruleInfo(rule string) RuleFn {
 				a := an.Norm(st.Addr)
 				isIn, isOut := strings.HasSuffix(a, ".Inputs"), strings.HasSuffix(a, ".Outputs")
 				if !isIn && !isOut {
+					return
+				}
+				if fa, isFA := st.Addr.(*ssa.FieldAddr); !isFA || !(an.IsDigNamed(fa.X.Type(), "ProvideInfo") || an.IsDigNamed(fa.X.Type(), "DecorateInfo") || an.IsDigNamed(fa.X.Type(), "InvokeInfo")) {
 					return
 				}
 				ms, ok := st.Val.(*ssa.MakeSlice)
@@ -431,49 +474,101 @@ func ruleInfo(rule string) RuleFn {
 				c.Check(strings.HasPrefix(l, "len(") && strings.HasSuffix(l, want), rule, nm+": "+a[strings.LastIndex(a, ".")+1:]+" has one entry per flattened declaration", l, "the Info slice is sized by "+l, st, nil)
 			})
 		}
-		// sources: n.ParamList().DotParam() of the node
+		// sources and ID: in the entry function, or in a helper of it that receives the Info
+		// struct and the node (an extracted "fill info" function)
+		isNodeExpr := func(s string) bool {
+			return (strings.HasPrefix(s, "dig.newConstructorNode(") || strings.HasPrefix(s, "dig.newDecoratorNode(")) && strings.HasSuffix(s, "#0") ||
+				(strings.HasPrefix(s, "dig.newParamList(reflect.TypeOf(p:function)") && strings.HasSuffix(s, "#0"))
+		}
+		type cand struct {
+			fn   *ssa.Function
+			bind map[string]string // parameter expression -> argument expression at the call site
+		}
+		candidates := func(entry *ssa.Function) []cand {
+			out := []cand{{entry, nil}}
+			an.Instrs(entry, func(in ssa.Instruction) {
+				k, ok := in.(*ssa.Call)
+				if !ok {
+					return
+				}
+				h := an.StaticCallee(k)
+				if h == nil || !c.P.InModule(h) || h == entry {
+					return
+				}
+				hasInfo := false
+				for _, q := range h.Params {
+					if an.IsDigNamed(q.Type(), "ProvideInfo") || an.IsDigNamed(q.Type(), "DecorateInfo") || an.IsDigNamed(q.Type(), "InvokeInfo") {
+						hasInfo = true
+					}
+				}
+				if !hasInfo {
+					return
+				}
+				b := map[string]string{}
+				for i, q := range h.Params {
+					if i < len(k.Common().Args) {
+						b["p:"+an.CanonParam(q)] = an.Norm(k.Common().Args[i])
+					}
+				}
+				out = append(out, cand{h, b})
+			})
+			return out
+		}
+		resolveBase := func(cd cand, pre string) string {
+			if cd.bind != nil {
+				if a, ok := cd.bind[pre]; ok {
+					return a
+				}
+			}
+			return pre
+		}
 		for nm, srcs := range map[string][]string{
-			"(*dig.Scope).provide":  {"#0.ParamList().DotParam()", "#0.ResultList().DotResult()"},
-			"(*dig.Scope).Decorate": {"#0.params.DotParam()", "#0.results.DotResult()"},
-			"(*dig.Scope).Invoke":   {"#0.DotParam()"},
+			"(*dig.Scope).provide":  {".ParamList().DotParam()", ".ResultList().DotResult()"},
+			"(*dig.Scope).Decorate": {".params.DotParam()", ".results.DotResult()"},
+			"(*dig.Scope).Invoke":   {".DotParam()"},
 		} {
-			fn := c.P.Func(nm)
-			if fn == nil {
+			entry := c.P.Func(nm)
+			if entry == nil {
 				continue
 			}
+			cds := candidates(entry)
 			for _, src := range srcs {
 				found := false
-				an.Instrs(fn, func(in ssa.Instruction) {
-					if k, ok := in.(*ssa.Call); ok && strings.HasSuffix(an.Norm(k), src) {
-						pre := strings.TrimSuffix(an.Norm(k), src)
-						if strings.HasPrefix(pre, "dig.newConstructorNode(") || strings.HasPrefix(pre, "dig.newDecoratorNode(") || strings.HasPrefix(pre, "dig.newParamList(reflect.TypeOf(p:function)") {
-							found = true
+				for _, cd := range cds {
+					an.Instrs(cd.fn, func(in ssa.Instruction) {
+						if k, ok := in.(*ssa.Call); ok && strings.HasSuffix(an.Norm(k), src) {
+							pre := strings.TrimSuffix(an.Norm(k), src)
+							if isNodeExpr(resolveBase(cd, pre)) {
+								found = true
+							}
 						}
-					}
-				})
+					})
+				}
 				c.Check(found, rule, nm+": Info is derived from the registered node's own "+src, "own lists", "Info lists are not "+src+" of the node being registered", nil, nil)
 			}
-		}
-		// ID provenance
-		for nm, want := range map[string]string{
-			"(*dig.Scope).provide":  "dig.ID(dig.newConstructorNode(",
-			"(*dig.Scope).Decorate": "dig.ID(dig.newDecoratorNode(",
-		} {
-			fn := c.P.Func(nm)
-			if fn == nil {
+			if nm == "(*dig.Scope).Invoke" {
 				continue
 			}
 			found := false
-			an.Instrs(fn, func(in ssa.Instruction) {
-				if st, ok := in.(*ssa.Store); ok && strings.HasSuffix(an.Norm(st.Addr), ".ID") {
-					s := an.Norm(st.Val)
-					if strings.HasPrefix(s, want) && strings.HasSuffix(s, "#0.id)") {
+			for _, cd := range cds {
+				an.Instrs(cd.fn, func(in ssa.Instruction) {
+					st, ok := in.(*ssa.Store)
+					if !ok || !strings.HasSuffix(an.Norm(st.Addr), ".ID") {
+						return
+					}
+					fa, isFA := st.Addr.(*ssa.FieldAddr)
+					if !isFA || !(an.IsDigNamed(fa.X.Type(), "ProvideInfo") || an.IsDigNamed(fa.X.Type(), "DecorateInfo")) {
+						return
+					}
+					sv := an.Norm(st.Val)
+					m := regexp.MustCompile(`^dig\.ID\((.*)\.id\)$`).FindStringSubmatch(sv)
+					if m != nil && isNodeExpr(resolveBase(cd, m[1])) {
 						found = true
 					} else {
-						c.Bad(rule, nm+": Info.ID is the node's id", "ID is "+s, st, nil)
+						c.Bad(rule, nm+": Info.ID is the node's id", "ID is "+sv+": not the id (code pointer) of the node being registered - the same function can get different IDs, distinct functions the same", st, nil)
 					}
-				}
-			})
+				})
+			}
 			c.Check(found, rule, nm+": Info.ID is the node's id", "ID(n.id)", "Info.ID is not set from the node's id", nil, nil)
 		}
 		for nm, want := range map[string]string{
